@@ -348,3 +348,32 @@ CHECKS["C18"] = dict(
         dict(name="iteration", test="TestIteration", kind="rapid", checks={"quick": 100, "thorough": 3000}, shards=16, timeout={"quick": 900, "thorough": 3400}, gomaxprocs=4, crash_is_violation=True),
     ],
 )
+
+CHECKS["C11"] = dict(
+    pkg="c11", level="exploration",
+    engine="verif hooks over the parsers/handlers (layer 1) + sim with a hostile node and hostile clients (layer 2); SUT in a child process the driver can afford to lose",
+    rule=("layer 1 (hooks, recover around each call, debug.SetMaxStack(64 MiB) so unbounded recursion is a cheap observable crash): part decoder: "
+          "generated and mutated byte strings into the real decoder (array nesting up to 400000, thorough 2000000; hostile constants; valid "
+          "messages with byte/insert/delete/truncate mutations; declared lengths around and beyond the limits; junk over the RESP alphabet): "
+          "no panic, sticky error, no more messages than bytes, an over-limit or negative declared length allocates < 8 MiB; part "
+          "clusternodes: generated CLUSTER NODES text (valid lines with dropped fields, unknown / self / replica master ids, bad and huge "
+          "slot ranges, markers) into parseClusterNodes; part backendreply: generated MOVED/ASK/CLUSTERDOWN error texts (missing fields, "
+          "extra spaces, wrong case, non-addresses) and arbitrary values through the real handleResp/handleRedirection; part scanreply: "
+          "arbitrary values as SCAN reply through the real rewriting hooks; part requestvalue: arbitrary decoded values and supported names "
+          "with hostile argument shapes through the real handleRequest (must answer within 3 s). layer 2 part sockets: a real proxy in "
+          "front of two simulated nodes; 1..5 steps in which node 0 answers the next CLUSTER NODES / READONLY / SCAN / keyed command with "
+          "generated bytes (optionally closing) or a client sends generated bytes; after every step a fresh connection must get +PONG and "
+          "a SET on the untouched node must succeed within 10 s. A crash of the test process is attributed to the case being executed and "
+          "is a violation. Non-trivial: the input is not valid RESP / not a well-formed reply and differs from every corpus constant. "
+          "Distinct by input bytes resp. canonical JSON."),
+    assumptions=["heap amplification by wide AND deep arrays (*1048576 nested d times costs d x 64 MiB) is not explored: the statement's memory bound is decided for stack depth and for single over-limit lengths only",
+                 "an incomplete reply that is never completed and never closed is a slow backend, not a hostile byte sequence: hostile backends close after incomplete replies"],
+    parts=[
+        dict(name="decoder", test="TestDecoderBytes", kind="rapid", checks={"quick": 1500, "thorough": 60000}, shards=16, timeout={"quick": 900, "thorough": 3400}, crash_is_violation=True),
+        dict(name="clusternodes", test="TestClusterNodesText", kind="rapid", checks={"quick": 10000, "thorough": 400000}, shards=4, timeout={"quick": 900, "thorough": 3400}, crash_is_violation=True),
+        dict(name="backendreply", test="TestBackendReplies", kind="rapid", checks={"quick": 300, "thorough": 10000}, shards=8, timeout={"quick": 900, "thorough": 3400}, crash_is_violation=True),
+        dict(name="scanreply", test="TestScanReplies", kind="rapid", checks={"quick": 5000, "thorough": 200000}, shards=2, timeout={"quick": 900, "thorough": 3400}, crash_is_violation=True),
+        dict(name="requestvalue", test="TestRequestValues", kind="rapid", checks={"quick": 3000, "thorough": 100000}, shards=4, timeout={"quick": 900, "thorough": 3400}, crash_is_violation=True),
+        dict(name="sockets", test="TestHostileSockets", kind="rapid", checks={"quick": 40, "thorough": 1500}, shards=16, timeout={"quick": 900, "thorough": 3400}, gomaxprocs=4, crash_is_violation=True),
+    ],
+)
